@@ -733,3 +733,60 @@ def rule_loop(eng, chk, cfg, f, loop, table, worlds, scope_name, rule="LOOP", ex
                                  (" [when %s]" % ", ".join("%s is %s" % (a, "set" if b else "unset") for a, b in world.items())) if world else ""),
                               _fmt_node(s.ubd[key]), cfg=cfg)
     return n
+
+
+def rule_sorted_flag(eng, chk, cfg, methods, rule="SORTED.invalidate", lst="minima_list_", flag="minima_list_sorted_"):
+    """The sweep pops local minima from a list it assumes sorted; `flag` caches "the list is sorted".  Typestate rule over the
+    summaries: every public method that may modify the list must write the flag on every path, every write of `true` is
+    preceded in its function by a sort of the list, and every other write stores `false`."""
+    db = eng.db
+    n = 0
+    for f in methods:
+        s = eng.summary(f, {}, {}, True)
+        if lst not in s.may_def:
+            continue
+        ok = flag in s.must_def
+        n += 1
+        chk.instance(rule, {"method": f.qual, "sig": f.sig[:50], "may_modify": lst, "must_write": flag, "cfg": cfg}, ok=ok)
+        if not ok:
+            chk.violation(rule, f.qual, f.sig[:40], "%s can modify %s but does not write %s on every path: after an earlier Execute the flag still says "
+                          "'sorted', the sweep then pops local minima out of order and skips paths" % (f.qual, lst, flag), f.where, cfg=cfg)
+    # the values written
+    for f in db.funcs:
+        if f.body is None or f.is_pattern or f.cls not in eng.classes:
+            continue
+        stmts = list(walk(f.body))
+        for i, x in enumerate(stmts):
+            if x.get("kind") == "BinaryOperator" and x.get("opcode") == "=" and canon(kids(x)[0]) == flag:
+                v = canon(kids(x)[1])
+                n += 1
+                if v == "true":
+                    ok = any(y.get("kind") == "CallExpr" and db.callee(y)[0] in ("stable_sort", "sort") and lst in canon(y) for y in stmts[:i])
+                    why = "stores true without a preceding sort of %s in %s" % (lst, f.qual)
+                else:
+                    ok = v == "false"
+                    why = "stores %s" % v
+                chk.instance(rule, {"function": f.qual, "write": canon(x), "cfg": cfg}, ok=ok)
+                if not ok:
+                    chk.violation(rule, f.qual, "write|" + canon(x)[:40], "`%s` %s: the flag may only become true right after the list was sorted" % (canon(x), why),
+                                  where(x), cfg=cfg)
+    return n
+
+
+def rule_config_preserved(eng, chk, cfg, execs, table, allowed, rule="CONFIG.preserved", only=None):
+    """An operation must leave the loaded input and the options as it found them (a second Execute on the same object is a
+    legitimate use): no Execute overload may write a member classified as configuration, except the documented caches in
+    `allowed` (name -> reason)."""
+    n = 0
+    for f in execs:
+        s = eng.summary(f, {}, {}, True)
+        for key in sorted(table["config"]):
+            if key not in eng.fields or (only is not None and key not in only):
+                continue
+            n += 1
+            bad = key in s.may_def and key not in allowed
+            chk.instance(rule, {"method": f.qual, "sig": f.sig[:50], "member": key, "written": key in s.may_def, "cfg": cfg} if n % 5 == 1 else None, ok=not bad)
+            if bad:
+                chk.violation(rule, f.qual, "%s|%s" % (key, f.sig[:30]), "%s can write the configuration member '%s': the object no longer describes the same "
+                              "input / options after the operation, so executing it again gives a different result" % (f.qual, key), f.where, cfg=cfg)
+    return n
